@@ -9,6 +9,7 @@ import (
 	"fmt"
 	"os"
 	"path/filepath"
+	"runtime/debug"
 	"strings"
 	"time"
 
@@ -439,6 +440,134 @@ func cmdStopFlush(f hx.Flags, r *hx.Result) {
 		}
 		r.Eval(2)
 	}
+	sfNameClash(r, tmp)
+	sfRestart(r, tmp)
+	sfScanDescriptors(r, tmp)
 	log.Destroy()
 	log.VerifReset()
+}
+
+// sfNameClash: loggers and appenders live in separate name spaces, so an appender may carry the name of a logger.
+// Destroy stops each of them: afterwards nothing under the log directory is open and everything accepted is readable.
+func sfNameClash(r *hx.Result, tmp string) {
+	ctx := context.Background()
+	for _, typ := range []string{"Logger", "AsyncLogger"} {
+		dir := filepath.Join(tmp, "clash-"+typ)
+		_ = os.MkdirAll(dir, 0o755)
+		log.Destroy()
+		log.VerifReset()
+		sys.ResetAppenders()
+		tag := log.RegisterTag("sf_clash")
+		cfg := sys.Cfg{}
+		// appender "audit" referenced by logger "audit"; appender "other" (rolling) referenced by logger "root2"
+		cfg["appender.audit.type"], cfg["appender.audit.fileDir"], cfg["appender.audit.fileName"] = "File", dir, "audit.log"
+		cfg["appender.root2.type"], cfg["appender.root2.fileDir"], cfg["appender.root2.fileName"] = "RollingFile", dir, "r2.log"
+		cfg["appender.root2.rotation"], cfg["appender.root2.maxAge"] = "h", "24"
+		ex := map[string]string{}
+		if typ == "AsyncLogger" {
+			ex = map[string]string{"bufferSize": "100", "bufferFullPolicy": "Block"}
+		}
+		cfg.AddLogger("audit", typ, "INFO", "sf_clash", []sys.Ref{{Ref: "audit"}, {Ref: "root2", Level: "NONE~MAX"}}, true, ex)
+		desc := map[string]any{"logger": typ + " named audit", "appenders": "File appender named audit, RollingFile appender named root2"}
+		if err := log.Refresh(cfg.Map(nil)); err != nil {
+			r.SetInfra("sfNameClash refresh: %v", err)
+			return
+		}
+		for id := 1; id <= 5; id++ {
+			log.Info(ctx, tag, log.Int("id", id))
+		}
+		if ret, p := hx.Within(10*time.Second, func() { log.Destroy() }); !ret || p != nil {
+			r.Violate("blocked:Destroy:name-clash", desc, "Destroy returned=%v panic=%v", ret, p)
+			log.VerifReset()
+			return
+		}
+		r.Eval(5)
+		if fds := openUnder(dir); len(fds) > 0 {
+			r.Violate("fd-leak:name-clash", desc, "descriptors still open after Destroy: %v", fds)
+		}
+		all := readAll(dir)
+		for id := 1; id <= 5; id++ {
+			if c := strings.Count(all, fmt.Sprintf("id=%d\n", id)); c != 2 {
+				r.Violate("not-flushed:name-clash", desc, "after Destroy event %d is in the two targets %d times, want 2", id, c)
+				break
+			}
+		}
+	}
+}
+
+// sfRestart: an appender instance may be started again after Stop (direct construction): what the second run accepts
+// is readable after the second Stop, behind what the first run wrote, and no descriptor stays open.
+func sfRestart(r *hx.Result, tmp string) {
+	dir := filepath.Join(tmp, "restart")
+	_ = os.MkdirAll(dir, 0o755)
+	lay := func() log.Layout { return &log.TextLayout{BaseLayout: log.BaseLayout{FileLineLength: 48}} }
+	type app interface {
+		Start() error
+		Stop()
+		Write(b []byte)
+	}
+	for name, a := range map[string]app{
+		"File appender":        &log.FileAppender{Layout: lay(), FileDir: dir, FileName: "fa.log"},
+		"RollingFile appender": &log.RollingFileAppender{Layout: lay(), FileDir: dir, FileName: "ra.log", Rotation: log.TimeRotation{Interval: time.Hour}, MaxAge: 24},
+	} {
+		desc := map[string]any{"kind": name + ", direct construction", "history": "Start, write run-1, Stop, Start, write run-2, Stop, Start, write run-3, Stop, Stop"}
+		var serr error
+		ret, p := hx.Within(10*time.Second, func() {
+			for run := 1; run <= 3 && serr == nil; run++ {
+				if serr = a.Start(); serr != nil {
+					return
+				}
+				a.Write([]byte(fmt.Sprintf("%s run-%d\n", name, run)))
+				a.Stop()
+			}
+			a.Stop()
+		})
+		r.Eval(3)
+		if !ret || p != nil || serr != nil {
+			r.Violate("blocked:restart", desc, "the history returned=%v panic=%v start error=%v", ret, p, serr)
+			continue
+		}
+		all := readAll(dir)
+		for run := 1; run <= 3; run++ {
+			if c := strings.Count(all, fmt.Sprintf("%s run-%d\n", name, run)); c != 1 {
+				r.Violate("not-flushed:restart", desc, "after the last Stop the write of run %d is in the target %d times, want 1", run, c)
+				break
+			}
+		}
+		if fds := openUnder(dir); len(fds) > 0 {
+			r.Violate("fd-leak:restart", desc, "descriptors still open after Stop: %v", fds)
+		}
+	}
+}
+
+// sfScanDescriptors: a running rolling appender does not accumulate descriptors.  The retention scan that every
+// rotation launches is run five times (synchronously, through the hook) with the collector switched off - a descriptor
+// that only a finalizer would release counts as held: afterwards the process holds the current file and nothing else
+// under (or on) the log directory; after Stop nothing.
+func sfScanDescriptors(r *hx.Result, tmp string) {
+	dir := filepath.Join(tmp, "scanfd")
+	_ = os.MkdirAll(dir, 0o755)
+	a := &log.RollingFileAppender{Layout: &log.TextLayout{BaseLayout: log.BaseLayout{FileLineLength: 48}}, FileDir: dir, FileName: "s.log",
+		Rotation: log.TimeRotation{Interval: time.Hour}, MaxAge: 24}
+	if err := a.Start(); err != nil {
+		r.SetInfra("sfScanDescriptors start: %v", err)
+		return
+	}
+	a.Write([]byte("x\n"))
+	old := debug.SetGCPercent(-1)
+	for i := 0; i < 5; i++ {
+		log.VerifClearExpired(a)
+	}
+	running := openUnder(dir)
+	a.Stop()
+	stopped := openUnder(dir)
+	debug.SetGCPercent(old)
+	r.Eval(5)
+	desc := map[string]any{"kind": "RollingFile appender, direct construction", "history": "Start, write, five retention scans (collector off), Stop"}
+	if len(running) != 1 {
+		r.Violate("fd-accumulate:retention-scan", desc, "after five retention scans the process holds %d descriptors under the log directory, want 1 (the current file): %v", len(running), running)
+	}
+	if len(stopped) != 0 {
+		r.Violate("fd-leak:retention-scan", desc, "descriptors still open after Stop: %v", stopped)
+	}
 }
